@@ -73,6 +73,7 @@ func shortPath(p string) string {
 // check emits an obligation and then assumes the checked fact.
 func (f *Frame) check(kind, what string, reach, cond *Term, p token.Pos) {
 	if cond.Op == "true" {
+		f.ctx.trivial++
 		return
 	}
 	name := f.ctx.fnKey + ":" + what
